@@ -584,3 +584,32 @@ def alarm_object_keys_copy(src):
     d = dict({src: 1})
     for k in d:
         k.width = 1
+
+
+def alarm_library_dict_update_shares_values(src):
+    from types import SimpleNamespace
+
+    font = SimpleNamespace()
+    groups = {k: v for k, v in src.groups.items()}
+    font.groups.update(groups)  # the new object's dict now holds the SOURCE's lists
+    for members in font.groups.values():
+        members[0] = "x"
+
+
+def ok_library_dict_update_copies(src):
+    from types import SimpleNamespace
+
+    font = SimpleNamespace()
+    groups = {k: list(v) for k, v in src.groups.items()}
+    font.groups.update(groups)
+    for members in font.groups.values():
+        members[0] = "x"
+
+
+def alarm_library_list_extend(src):
+    from types import SimpleNamespace
+
+    o = SimpleNamespace()
+    o.items.extend([src])
+    for x in o.items:
+        x.width = 1
